@@ -116,14 +116,14 @@ def job_pda(job, fam, eps='_', seed=0, nsym=7):
     return job.solve()
 
 
-def job_tm(job, nwork, gamma_in, blank):
+def job_tm(job, nwork, gamma_in, blank, tstep=1):
     from gambatools.tm_algorithms import print_tm, parse_tm
     from .C11 import sym_tm, tm_json
     from .oracles import dict_items
     job.functions('tm_algorithms', ['print_tm', 'parse_tm', 'TMBuilder'])
     d = E.dag
     gamma_in = list(gamma_in)
-    T, states, gamma, entries = sym_tm(nwork, gamma_in, blank, 's0')
+    T, states, gamma, entries = sym_tm(nwork, gamma_in, blank, 's0', tstep)
     dec = lambda mv: tm_json(states, gamma_in, gamma, blank, 's0', entries, mv)
     job.inputs['T'] = T
     job.decoders['T'] = dec
@@ -135,7 +135,7 @@ def job_tm(job, nwork, gamma_in, blank):
         bad = []
         after = {}
         for key, (pres, val) in dict_items(T2.delta).items():
-            for g, tgt in E.alts(val):
+            for g, tgt in E.inst(val):        # deep instantiation: (q, U, U) -> concrete triples
                 if isinstance(tgt, tuple):
                     after[(tuple(map(str, key)), tuple(map(str, tgt)))] = d.and_(pres, g)
         before = {((p, a), t): g for (p, a), alts in entries.items() for t, g in alts.items()}
@@ -253,12 +253,15 @@ def jobs(tier):
     add('pda_random_unicode', job_pda, fam='random', seed=3, eps='ε', timeout=tmo)
     add('tm_w1_g1', job_tm, nwork=1, gamma_in='a', blank='_', timeout=tmo)
     add('tm_w2_g1_box', job_tm, nwork=2, gamma_in='a', blank='□', timeout=tmo)
-    add('tm_w1_g2', job_tm, nwork=1, gamma_in='ab', blank='_', timeout=tmo)
-    add('regexp_d2', job_regexp, depth=2, maxlen=3, timeout=tmo)
-    add('regexp_concat_d1_sum', job_regexp, depth=3, maxlen=3, shape=['C', 1, ['S', 1, 1]], timeout=tmo)
-    add('regexp_sum_concat', job_regexp, depth=3, maxlen=3, shape=['S', ['C', 1, 1], ['I', 1]], timeout=tmo)
-    for fam in ('eps_unit', 'three_vars', 'shared_rhs', 'repeated_nullable'):
-        add('cfg_%s' % fam, job_cfg, family=fam, timeout=tmo)
+    if not q:
+        add('tm_w1_g2_sub', job_tm, nwork=1, gamma_in='ab', blank='_', tstep=3, timeout=tmo)
+    # regular expressions: operator shape fixed per job (cube splitting), leaves symbolic over {0, 1, a, b}:
+    # together every tree of depth <= 2 (thorough: depth <= 3 with at most 4 leaves)
+    from .C06 import _shapes, _shape_name, _depth
+    for s, nl in _shapes(2 if q else 3, 4):
+        add('regexp_%s' % _shape_name(s), job_regexp, depth=_depth(s), maxlen=3, shape=s, timeout=tmo)
+    for fam in ('eps_unit', 'three_vars', 'shared_rhs', 'repeated_nullable', 'long', 'indirect_nullable', 'useless_cyclic', 'length5'):
+        add('cfg_%s' % fam, job_cfg, family=fam, nsym=9, timeout=tmo)
     return J
 
 
